@@ -149,6 +149,20 @@ def run(ctx):
             if not any(r[v] for r in H):
                 H[rng.randrange(m)][v] = 1
         Hs.append(("sparse-%d" % i, H))
+    # twins: another parity-check matrix with the same degree layout (two equal-degree columns exchanged, or a row rotated over the
+    # same support size) built later in the same process; the decoder of the twin must serve the twin's code
+    twins = []
+    for hname, H in list(Hs):
+        n_ = len(H[0])
+        deg = [sum(r[v] for r in H) for v in range(n_)]
+        pairs = [(a, b_) for a in range(n_) for b_ in range(a + 1, n_) if deg[a] == deg[b_] and [r[a] for r in H] != [r[b_] for r in H]]
+        if pairs:
+            a, b_ = rng.choice(pairs)
+            T_ = [list(r) for r in H]
+            for r in T_:
+                r[a], r[b_] = r[b_], r[a]
+            twins.append((hname + "-twin", T_))
+    Hs += twins
     for hname, H in Hs:
         n = len(H[0])
         try:
